@@ -260,7 +260,8 @@ class BlockCollection(list):
         totalWeight = 0.0
         for b in self.getCandidateBlocks():
             # self.getWeight(b) incorporates the volume as does mass, so divide by volume not to double-count
-            weighting = b.p.massHmBOL * self.getWeight(b) / b.getVolume()
+            # (for a block without volume, getWeight used 1.0 instead)
+            weighting = b.p.massHmBOL * self.getWeight(b) / (b.getVolume() or 1.0)
             totalWeight += weighting
             weightedBurnup += weighting * b.p.percentBu
         return 0.0 if totalWeight == 0.0 else weightedBurnup / totalWeight
@@ -429,7 +430,10 @@ class AverageBlockCollection(BlockCollection):
             nucName, ndens data (atoms/bn-cm)
         """
         blocks = self.getCandidateBlocks()
-        weights = np.array([self.getWeight(b) / b.getHeight() for b in blocks])
+        # a block without height has no volume: getWeight used 1.0 instead, so there is nothing to pull out
+        weights = np.array(
+            [self.getWeight(b) / (b.getHeight() or 1.0) for b in blocks]
+        )
         weights /= weights.sum()  # normalize by total weight
         components = [sorted(b.getComponents())[compIndex] for b in blocks]
         weightedAvgComponentMass = sum(
